@@ -2,7 +2,7 @@ import QuillModel.Backend.OrdBasic
 /-!
 # The ordering invariant of the backend model (C05; reused by C06)
 
-`PI ex fl T C s`:
+`PI c ex fl T C s`:
 * `fl` — the cut-off (`ts_now`) sampled by the current / most recent pass of the backend;
 * `T`  — the contexts the current pass has *not yet* read (`fun _ => True` outside a pass);
 * `C`  — the context cache (`s.cache = C`; frontend operations never touch it);
@@ -21,6 +21,8 @@ structure QC (t : Th) : Prop where
   wpos : t.q.wpos = t.q.wHist.headD 0
   sum : t.q.wHist.headD 0 = t.q.rpos + (t.qStmts.map (·.size)).sum
   pos : ∀ st ∈ t.qStmts, 0 < st.size
+  /-- the reader's cached writer position is a record boundary ahead of (or at) the reader position -/
+  wc : ∃ k, k ≤ t.qStmts.length ∧ t.q.wcache = t.q.rpos + ((t.qStmts.take k).map (·.size)).sum
 
 /-- the premise of C05, per context index -/
 def PremI (s : BSt) : Prop := ∀ i, ∀ st ∈ (s.th i).accepted, st.enqAt ≤ st.ts + s.cfg.grace
@@ -34,9 +36,8 @@ structure Ord (fl : Nat) (T : Nat → Prop) (s : BSt) : Prop where
   bufFloor : ∀ i, ∀ st ∈ (s.th i).buf, st.ts ≤ fl
   late : ∀ i ∈ s.registry, ¬ T i → (s.th i).buf = [] → ∀ st ∈ (s.th i).qStmts, fl ≤ st.ts
 
-structure PI (ex : Option Nat) (fl : Nat) (T : Nat → Prop) (C : List Nat) (s : BSt) : Prop where
-  grace : s.cfg.grace ≠ 0
-  ras : s.cfg.refreshAfterSample = true
+structure PI (c : Cfg) (ex : Option Nat) (fl : Nat) (T : Nat → Prop) (C : List Nat) (s : BSt) : Prop where
+  cfgEq : s.cfg = c
   hdr : 0 < s.cfg.hdr
   floorNow : fl ≤ s.now - s.cfg.grace
   cacheEq : s.cache = C
@@ -52,7 +53,7 @@ structure PI (ex : Option Nat) (fl : Nat) (T : Nat → Prop) (C : List Nat) (s :
   ctxInj : ∀ a b x y i, s.actor a = some x → s.actor b = some y → x.ctx = some i → y.ctx = some i → a = b
   pend : ∀ a x st, s.actor a = some x → some a ≠ ex → isPendOf x.pend st →
            st.ts ≤ s.now ∧ 0 < st.size ∧ ∀ i, x.ctx = some i → ∀ r ∈ chain (s.th i), r.ts ≤ st.ts
-  ord : PremI s → Ord fl T s
+  ord : c.grace ≠ 0 → c.refreshAfterSample = true → PremI s → Ord fl T s
 
 theorem Ord.cast {fl T} {s s' : BSt} (o : Ord fl T s) (h1 : s'.popLog = s.popLog) (h2 : ∀ i, s'.th i = s.th i)
     (h3 : s'.registry = s.registry) : Ord fl T s' where
@@ -71,22 +72,27 @@ structure ThEq (t t' : Th) : Prop where
   wh : t'.q.wHist.headD 0 = t.q.wHist.headD 0
   rpos : t'.q.rpos = t.q.rpos
   valid : t'.valid = t.valid
+  wc : t'.q.wcache = t.q.wcache ∨ t'.q.wcache = t'.q.wHist.headD 0
 
-theorem ThEq.refl (t : Th) : ThEq t t := ⟨rfl, rfl, rfl, rfl, rfl, rfl, rfl⟩
+theorem ThEq.refl (t : Th) : ThEq t t := ⟨rfl, rfl, rfl, rfl, rfl, rfl, rfl, .inl rfl⟩
 
 theorem ThEq.chain {t t' : Th} (h : ThEq t t') : chain t' = chain t := by
   simp only [PB.chain, h.buf, h.q]
 
-theorem ThEq.qc {t t' : Th} (h : ThEq t t') (hq : QC t) : QC t' :=
-  ⟨by rw [h.wpos, h.wh]; exact hq.wpos, by rw [h.wh, h.rpos, h.q]; exact hq.sum, by rw [h.q]; exact hq.pos⟩
+theorem ThEq.qc {t t' : Th} (h : ThEq t t') (hq : QC t) : QC t' := by
+  refine ⟨by rw [h.wpos, h.wh]; exact hq.wpos, by rw [h.wh, h.rpos, h.q]; exact hq.sum, by rw [h.q]; exact hq.pos, ?_⟩
+  rcases h.wc with e | e
+  · obtain ⟨k, hk, hw⟩ := hq.wc
+    exact ⟨k, by rw [h.q]; exact hk, by rw [e, h.rpos, h.q]; exact hw⟩
+  · refine ⟨t'.qStmts.length, Nat.le_refl _, ?_⟩
+    rw [e, List.take_length, h.wh, h.rpos, h.q]; exact hq.sum
 
 /-- the invariant depends only on the fields listed here -/
-theorem PI.congr {ex fl T C} {s s' : BSt} (h : PI ex fl T C s) (hcfg : s'.cfg = s.cfg) (hnow : s'.now = s.now)
+theorem PI.congr {ex fl T C} {s s' : BSt} (h : PI c ex fl T C s) (hcfg : s'.cfg = s.cfg) (hnow : s'.now = s.now)
     (hth : ∀ i, ThEq (s.th i) (s'.th i)) (hlen : s'.ths.length = s.ths.length) (hreg : s'.registry = s.registry)
     (hcache : s'.cache = s.cache) (hnf : s'.newFlag = s.newFlag) (hact : ∀ a, s'.actor a = s.actor a)
-    (hpop : s'.popLog = s.popLog) : PI ex fl T C s' where
-  grace := by rw [hcfg]; exact h.grace
-  ras := by rw [hcfg]; exact h.ras
+    (hpop : s'.popLog = s.popLog) : PI c ex fl T C s' where
+  cfgEq := by rw [hcfg]; exact h.cfgEq
   hdr := by rw [hcfg]; exact h.hdr
   floorNow := by rw [hcfg, hnow]; exact h.floorNow
   cacheEq := by rw [hcache]; exact h.cacheEq
@@ -105,11 +111,11 @@ theorem PI.congr {ex fl T C} {s s' : BSt} (h : PI ex fl T C s) (hcfg : s'.cfg = 
     obtain ⟨h1, h2, h3⟩ := h.pend a x st hx hex hp
     refine ⟨by rw [hnow]; exact h1, h2, fun i hi r hr => ?_⟩
     rw [(hth i).chain] at hr; exact h3 i hi r hr
-  ord := fun hp => by
+  ord := fun hg0 hr0 hp => by
     have hp0 : PremI s := fun i st hst => by
       have := hp i st (by rw [(hth i).acc]; exact hst)
       rwa [hcfg] at this
-    have ho := h.ord hp0
+    have ho := h.ord hg0 hr0 hp0
     exact {
       popSorted := by rw [hpop]; exact ho.popSorted
       above := fun p hp i hi => by rw [(hth i).chain]; rw [hpop] at hp; rw [hreg] at hi; exact ho.above p hp i hi
@@ -130,7 +136,7 @@ structure Core where
 
 def core (s : BSt) : Core := ⟨s.cfg, s.now, s.ths, s.registry, s.cache, s.newFlag, s.actors, s.popLog⟩
 
-theorem PI.frame {ex fl T C} {s s' : BSt} (h : PI ex fl T C s) (hc : core s' = core s) : PI ex fl T C s' := by
+theorem PI.frame {ex fl T C} {s s' : BSt} (h : PI c ex fl T C s) (hc : core s' = core s) : PI c ex fl T C s' := by
   have h1 : s'.cfg = s.cfg := congrArg Core.cfg hc
   have h2 : s'.now = s.now := congrArg Core.now hc
   have h3 : s'.ths = s.ths := congrArg Core.ths hc
@@ -149,8 +155,8 @@ theorem PI.frame {ex fl T C} {s s' : BSt} (h : PI ex fl T C s) (hc : core s' = c
 @[simp] theorem core_emit (s : BSt) (e : Ev) : core (s.emit e) = core s := rfl
 
 /-- a context update invisible to the invariant -/
-theorem PI.setTh_frame {ex fl T C} {s : BSt} (h : PI ex fl T C s) (i : Nat) (f : Th → Th)
-    (hf : ThEq (s.th i) (f (s.th i))) : PI ex fl T C (s.setTh i f) := by
+theorem PI.setTh_frame {ex fl T C} {s : BSt} (h : PI c ex fl T C s) (i : Nat) (f : Th → Th)
+    (hf : ThEq (s.th i) (f (s.th i))) : PI c ex fl T C (s.setTh i f) := by
   refine h.congr rfl rfl (fun j => ?_) (length_setTh s i f) rfl rfl rfl (fun a => rfl) rfl
   rcases th_setTh_cases s i j f with h1 | ⟨rfl, _, h1⟩
   · rw [h1]; exact ThEq.refl _
@@ -162,39 +168,51 @@ theorem chain_setTh_frame (s : BSt) (i : Nat) (f : Th → Th) (hf : ThEq (s.th i
   · rw [h1]
   · rw [h1]; exact hf.chain
 
-theorem PI.weakenT {ex fl T T' C} {s : BSt} (h : PI ex fl T C s) (hT : ∀ i, T i → T' i) : PI ex fl T' C s :=
-  { h with ord := fun hp => { h.ord hp with late := fun i hr hi => (h.ord hp).late i hr (fun ht => hi (hT i ht)) } }
+theorem PI.weakenT {ex fl T T' C} {s : BSt} (h : PI c ex fl T C s) (hT : ∀ i, T i → T' i) : PI c ex fl T' C s :=
+  { h with ord := fun hg0 hr0 hp => { h.ord hg0 hr0 hp with late := fun i hr hi => (h.ord hg0 hr0 hp).late i hr (fun ht => hi (hT i ht)) } }
 
-theorem PI.newFloor {ex fl T C} {s : BSt} (h : PI ex fl T C s) (fl' : Nat) (h1 : fl ≤ fl')
-    (h2 : fl' ≤ s.now - s.cfg.grace) : PI ex fl' (fun _ => True) C s :=
+theorem PI.newFloor {ex fl T C} {s : BSt} (h : PI c ex fl T C s) (fl' : Nat) (h1 : fl ≤ fl')
+    (h2 : fl' ≤ s.now - s.cfg.grace) : PI c ex fl' (fun _ => True) C s :=
   { h with
     floorNow := h2
-    ord := fun hp => { h.ord hp with
-      popFloor := fun p hpp => Nat.le_trans ((h.ord hp).popFloor p hpp) h1
-      bufFloor := fun i st hst => Nat.le_trans ((h.ord hp).bufFloor i st hst) h1
+    ord := fun hg0 hr0 hp => { h.ord hg0 hr0 hp with
+      popFloor := fun p hpp => Nat.le_trans ((h.ord hg0 hr0 hp).popFloor p hpp) h1
+      bufFloor := fun i st hst => Nat.le_trans ((h.ord hg0 hr0 hp).bufFloor i st hst) h1
       late := fun _ _ hi => absurd trivial hi } }
 
-theorem PI.unex {fl T C} {s : BSt} {a : Nat} (h : PI none fl T C s) : PI (some a) fl T C s :=
+theorem PI.unex {fl T C} {s : BSt} {a : Nat} (h : PI c none fl T C s) : PI c (some a) fl T C s :=
   { h with pend := fun b x st hx _ hp => h.pend b x st hx (by simp) hp }
 
 /-! ### what the queue calls do to the fields the coupling mentions -/
 
 theorem qPrepareWrite_fields (c : Cfg) (q : Spsc.St) (n : Nat) :
     (qPrepareWrite c q n).1.wpos = q.wpos ∧ (qPrepareWrite c q n).1.wHist = q.wHist ∧
-    (qPrepareWrite c q n).1.rpos = q.rpos := by
+    (qPrepareWrite c q n).1.rpos = q.rpos ∧ (qPrepareWrite c q n).1.wcache = q.wcache := by
   simp only [qPrepareWrite, Spsc.absApi, Spsc.apiOps]
   split <;> simp [Spsc.run, Spsc.step]
 
 theorem qFinishCommit_fields (c : Cfg) (q : Spsc.St) (n : Nat) :
     (qFinishCommit c q n).wpos = q.wpos + n ∧ (qFinishCommit c q n).wHist = (q.wpos + n) :: q.wHist ∧
-    (qFinishCommit c q n).rpos = q.rpos := by
+    (qFinishCommit c q n).rpos = q.rpos ∧ (qFinishCommit c q n).wcache = q.wcache := by
   simp [qFinishCommit, Spsc.absApi, Spsc.apiOps, Spsc.run, Spsc.step]
 
 theorem qPrepareRead_fields (c : Cfg) (q : Spsc.St) :
     (qPrepareRead c q).1.wpos = q.wpos ∧ (qPrepareRead c q).1.wHist = q.wHist ∧
-    (qPrepareRead c q).1.rpos = q.rpos := by
+    (qPrepareRead c q).1.rpos = q.rpos ∧
+    ((qPrepareRead c q).1.wcache = q.wcache ∨ (qPrepareRead c q).1.wcache = (qPrepareRead c q).1.wHist.headD 0) := by
   simp only [qPrepareRead, Spsc.absApi, Spsc.apiOps]
   split <;> simp [Spsc.run, Spsc.step]
+
+theorem qPrepareRead_true (c : Cfg) (q : Spsc.St) (h : (qPrepareRead c q).2 = true) :
+    (qPrepareRead c q).1.wcache ≠ (qPrepareRead c q).1.rpos := by
+  simp only [qPrepareRead, Spsc.absApi, Spsc.apiOps, Spsc.apiObs] at h ⊢
+  by_cases hw : q.wcache = q.rpos
+  · simp only [if_pos hw, Spsc.run, Spsc.step] at h ⊢
+    intro he
+    have he' : q.wHist.head?.getD 0 = q.rpos := by simpa using he
+    simp [he'] at h
+  · simp only [if_neg hw, Spsc.run] at h ⊢
+    exact hw
 
 theorem qPrepareRead_false (c : Cfg) (q : Spsc.St) (h : (qPrepareRead c q).2 = false) : q.wHist.headD 0 = q.rpos := by
   simp only [qPrepareRead, Spsc.absApi, Spsc.apiOps, Spsc.apiObs] at h
@@ -207,9 +225,17 @@ theorem qPrepareRead_false (c : Cfg) (q : Spsc.St) (h : (qPrepareRead c q).2 = f
     try exact absurd h hw
 
 theorem qEmpty_fields (c : Cfg) (q : Spsc.St) :
-    (qEmpty c q).1.wpos = q.wpos ∧ (qEmpty c q).1.wHist = q.wHist ∧ (qEmpty c q).1.rpos = q.rpos := by
+    (qEmpty c q).1.wpos = q.wpos ∧ (qEmpty c q).1.wHist = q.wHist ∧ (qEmpty c q).1.rpos = q.rpos ∧
+    ((qEmpty c q).1.wcache = q.wcache ∨ (qEmpty c q).1.wcache = (qEmpty c q).1.wHist.headD 0) := by
   simp only [qEmpty, Spsc.absApi, Spsc.apiOps]
   split <;> simp [Spsc.run, Spsc.step]
+
+/-- the converse of `qEmpty_true`: with a coherent cached writer position, an empty queue is reported empty -/
+theorem qEmpty_of_eq (c : Cfg) (q : Spsc.St) (h1 : q.wHist.headD 0 = q.rpos) (h2 : q.wcache = q.rpos) :
+    (qEmpty c q).2 = true := by
+  have h1' : q.wHist.head?.getD 0 = q.rpos := by simpa using h1
+  simp only [qEmpty, Spsc.absApi, Spsc.apiOps, Spsc.apiObs, if_pos h2, Spsc.run, Spsc.step]
+  simp [h1']
 
 theorem qEmpty_true (c : Cfg) (q : Spsc.St) (h : (qEmpty c q).2 = true) : q.wHist.headD 0 = q.rpos := by
   simp only [qEmpty, Spsc.absApi, Spsc.apiOps, Spsc.apiObs] at h
@@ -222,16 +248,30 @@ theorem qEmpty_true (c : Cfg) (q : Spsc.St) (h : (qEmpty c q).2 = true) : q.wHis
     try exact absurd h hw
 
 theorem qFinishRead_fields (c : Cfg) (q : Spsc.St) (n : Nat) :
-    (qFinishRead c q n).wpos = q.wpos ∧ (qFinishRead c q n).wHist = q.wHist ∧ (qFinishRead c q n).rpos = q.rpos + n := by
+    (qFinishRead c q n).wpos = q.wpos ∧ (qFinishRead c q n).wHist = q.wHist ∧ (qFinishRead c q n).rpos = q.rpos + n ∧
+    (qFinishRead c q n).wcache = q.wcache := by
   simp [qFinishRead, Spsc.absApi, Spsc.apiOps, Spsc.run, Spsc.step]
 
 theorem qCommitRead_fields (c : Cfg) (q : Spsc.St) :
-    (qCommitRead c q).wpos = q.wpos ∧ (qCommitRead c q).wHist = q.wHist ∧ (qCommitRead c q).rpos = q.rpos := by
+    (qCommitRead c q).wpos = q.wpos ∧ (qCommitRead c q).wHist = q.wHist ∧ (qCommitRead c q).rpos = q.rpos ∧
+    (qCommitRead c q).wcache = q.wcache := by
   simp only [qCommitRead, Spsc.absApi, Spsc.apiOps, Spsc.run, Spsc.step]
   split <;> simp
 
-theorem ThEq.ofQ (t : Th) (q' : Spsc.St) (h : q'.wpos = t.q.wpos ∧ q'.wHist = t.q.wHist ∧ q'.rpos = t.q.rpos) :
-    ThEq t { t with q := q' } :=
-  ⟨rfl, rfl, rfl, h.1, by simp [h.2.1], h.2.2, rfl⟩
+theorem ThEq.ofQ (t : Th) (q' : Spsc.St) (h : q'.wpos = t.q.wpos ∧ q'.wHist = t.q.wHist ∧ q'.rpos = t.q.rpos ∧
+    (q'.wcache = t.q.wcache ∨ q'.wcache = q'.wHist.headD 0)) : ThEq t { t with q := q' } :=
+  ⟨rfl, rfl, rfl, h.1, by simp [h.2.1], h.2.2.1, rfl, h.2.2.2⟩
+
+theorem ThEq.ofQ' (t : Th) (q' : Spsc.St) (h : q'.wpos = t.q.wpos ∧ q'.wHist = t.q.wHist ∧ q'.rpos = t.q.rpos ∧
+    q'.wcache = t.q.wcache) : ThEq t { t with q := q' } :=
+  ThEq.ofQ t q' ⟨h.1, h.2.1, h.2.2.1, .inl h.2.2.2⟩
+
+/-- an empty queue is reported empty -/
+theorem QC.empty_true {t : Th} (h : QC t) (c : Cfg) (he : t.qStmts = []) : (qEmpty c t.q).2 = true := by
+  obtain ⟨k, _, hw⟩ := h.wc
+  have hs := h.sum
+  rw [he] at hs hw
+  simp only [List.map_nil, List.sum_nil, Nat.add_zero, List.take_nil] at hs hw
+  exact qEmpty_of_eq c t.q hs hw
 
 end Backend.PB
